@@ -23,6 +23,7 @@ import (
 	"fmt"
 	"math"
 	"math/rand"
+	"os"
 	"path/filepath"
 	"runtime"
 	"strconv"
@@ -788,6 +789,7 @@ func TestVerifC03Concurrent(t *testing.T) {
 	ntr := vfh.EnvInt("VERIF_C03_TRACES", 10)
 	nrace := vfh.EnvInt("VERIF_C03_RACES", 20)
 	path := filepath.Join(vfh.Out(), "c03_traces.ndjson")
+	os.Remove(path)
 	for i := 0; i < ntr; i++ {
 		if err := vfC03Scenario(res, cf, fmt.Sprintf("traced-%d-%d", vfh.Seed(), i), vfh.Seed()*100000+int64(i), false, 4, 3, 8, path); err != nil {
 			t.Fatal(err)
